@@ -40,15 +40,17 @@ func c03Valid(b *nom.AccountBlock, c *c03Chain, withTransaction bool) {
 		verifAssert(b.Amount == nil || b.Amount.Sign() == 0, "accepted receive => no amount")
 		verifAssert(b.TokenStandard == types.ZeroTokenStandard && b.ToAddress == types.ZeroAddress, "accepted receive => no token / destination")
 		verifAssert(!b.FromBlockHash.IsZero(), "accepted receive => names a from-block")
-		from := c.maStore.blocks[b.FromBlockHash]
+		from, _ := c.maStore.GetAccountBlockByHash(b.FromBlockHash)
 		verifAssert(from != nil, "accepted receive => the send exists as of the acknowledged momentum")
-		verifAssert(c.account.received[b.FromBlockHash] == false, "accepted receive => the send was not received on this account chain")
+		verifAssert(!c.account.IsReceived(b.FromBlockHash), "accepted receive => the send was not received on this account chain")
 		if c.frontier.id.Height >= ReceiverMismatchEnforcementHeight {
 			verifAssert(from.ToAddress == b.Address, "accepted receive (from the enforcement height on) => the send is addressed to this account")
 		}
 		if embedded {
-			verifAssert(c.maStore.confirm[b.FromBlockHash] == b.MomentumAcknowledged.Height, "accepted contract receive => acknowledges exactly the momentum that confirmed the send")
-			verifAssert(c.account.seqFront != nil && *c.account.seqFront == from.Header(), "accepted contract receive => the send is the next entry of the contract's inbox")
+			ch, _ := c.maStore.GetBlockConfirmationHeight(b.FromBlockHash)
+			verifAssert(ch == b.MomentumAcknowledged.Height, "accepted contract receive => acknowledges exactly the momentum that confirmed the send")
+			front := c.account.SequencerFront(nil)
+			verifAssert(front != nil && *front == from.Header(), "accepted contract receive => the send is the next entry of the contract's inbox")
 		}
 	}
 	if b.Difficulty != 0 {
